@@ -11,9 +11,9 @@ mkdir -p .deps
   /venv/bin/pip install -q --no-index --find-links /opt/veriftools/wheels --target .deps jsonschema
 /venv/bin/python -c "import sys; sys.path.insert(0, '.deps'); import atheris" 2>/dev/null || \
   /venv/bin/pip install -q --no-index --find-links /opt/veriftools/wheels --target .deps atheris || true
-if [ -f tools/src/rec.c ]; then
-  mkdir -p tools/stubbin
-  gcc -O1 -o tools/stubbin/rec tools/src/rec.c
-fi
+mkdir -p tools/stubbin
+gcc -O1 -Wall -o tools/stubbin/rec tools/src/rec.c
+for n in cc c++ ar gen rec2 drv; do cp -f tools/stubbin/rec tools/stubbin/$n; done
 /venv/bin/python -c "import bfg9000; print('bfg9000', bfg9000.__file__)"
+/venv/bin/python tools/refninja/selftest.py
 echo setup ok
